@@ -304,7 +304,7 @@ ImportCases(blk) ==
 
 \* ------------------------------------------------------------------ EXPORT: abstract keysets
 \* key [kind, alg, strat, idc, kidc, status, priv, mat];  mat: "m1" | "m2" (ordinary material of the run),
-\* "lz" (RSA: the modulus octets start with 00), "e3" (RSA: e = 65539; public only)
+\* "lz" (RSA: the modulus octets start with 00), "e3" (RSA: e = 65539; public only), "z" (EC: x starts with 00)
 IdOf(c) == CASE c = "a" -> "01020304" [] c = "b" -> "fffffffe" [] c = "c" -> "00000001" [] c = "d" -> "80000000"
 IdClasses == {"a", "b", "c", "d"}
 AK(alg, strat, idc, kidc, status, priv, mat) ==
@@ -348,6 +348,8 @@ ForeignKeysets ==
 SpecialKeysets ==
   {KS("special", <<"modulus with leading zero", a, s>>, <<AK(a, s, "a", "plain", "ENABLED", FALSE, "lz")>>, 1)
      : a \in {"RS256", "PS512"}, s \in Strats}
+  \* an EC key whose x coordinate starts with a zero octet (RFC 7518 6.2.1.2: still the full size)
+  \cup {KS("special", <<"coordinate with leading zero", a, s>>, <<AK(a, s, "b", "utf8", "ENABLED", FALSE, "z")>>, 1) : a \in JWSEcAlgs, s \in Strats}
   \cup {KS("special", <<"e = 65539", a, s>>, <<AK(a, s, "a", "plain", "ENABLED", FALSE, "e3")>>, 1) : a \in {"RS384", "PS256"}, s \in Strats}
   \* the same key material twice: ENABLED and not; with different strategies
   \cup {KS("special", <<"same material twice", a, s1, s2, st>>,
